@@ -201,7 +201,7 @@ func helperGroup(f *ssa.Function, depth int) []*ssa.Function {
 		for _, g := range frontier {
 			for _, c := range an.Calls(g) {
 				sc := an.StaticCallee(c)
-				if sc == nil || seen[sc] || sc.Blocks == nil || an.FuncPkgPath(sc) != an.FuncPkgPath(f) {
+				if sc == nil || seen[sc] || sc.Blocks == nil || !(an.FuncPkgPath(sc) == an.FuncPkgPath(f) || inSharedHelperPackage(sc)) {
 					continue
 				}
 				seen[sc] = true
@@ -438,7 +438,12 @@ func matchLoop(r *an.Run) (anchor, holder *ssa.Function, il *an.IndexLoop) {
 
 // sliceAcross is an.BackSlice continued through parameter bindings: a
 // parameter of a single-call-site helper depends on the argument bound to it.
-func sliceAcross(v ssa.Value) map[ssa.Value]bool {
+func sliceAcross(v ssa.Value) map[ssa.Value]bool { return sliceAcrossIn(nil, v) }
+
+// sliceAcrossIn is sliceAcross from the point of view of pipeline f: a
+// parameter of a helper that f's group calls from one site (but another
+// pipeline calls too) is bound to the argument at that site.
+func sliceAcrossIn(f *ssa.Function, v ssa.Value) map[ssa.Value]bool {
 	out := map[ssa.Value]bool{}
 	work := []ssa.Value{v}
 	for len(work) > 0 {
@@ -452,11 +457,15 @@ func sliceAcross(v ssa.Value) map[ssa.Value]bool {
 			if p, ok := y.(*ssa.Parameter); ok {
 				if a := an.Actual(p); a != nil && !out[a] {
 					work = append(work, a)
+				} else if f != nil {
+					if a := actualIn(f, p); a != ssa.Value(p) && !out[a] {
+						work = append(work, a)
+					}
 				}
 			}
 			// the result of a private helper depends on what the helper returns
 			if c, ok := y.(*ssa.Call); ok {
-				if h := an.StaticCallee(c); h != nil && an.InModule(h) && h.Blocks != nil && c.Parent() != nil && an.FuncPkgPath(h) == an.FuncPkgPath(c.Parent()) {
+				if h := an.StaticCallee(c); h != nil && an.InModule(h) && h.Blocks != nil && c.Parent() != nil && (an.FuncPkgPath(h) == an.FuncPkgPath(c.Parent()) || inSharedHelperPackage(h)) {
 					for _, ret := range an.Returns(h) {
 						for _, res := range ret.Results {
 							if !out[res] {
@@ -472,7 +481,11 @@ func sliceAcross(v ssa.Value) map[ssa.Value]bool {
 }
 
 func derivesFromAcross(v ssa.Value, roots ...ssa.Value) bool {
-	sl := sliceAcross(v)
+	return derivesFromAcrossIn(nil, v, roots...)
+}
+
+func derivesFromAcrossIn(f *ssa.Function, v ssa.Value, roots ...ssa.Value) bool {
+	sl := sliceAcrossIn(f, v)
 	for _, p := range roots {
 		if p != nil && sl[p] {
 			return true
@@ -650,4 +663,58 @@ func preciseSlice(v ssa.Value) map[ssa.Value]bool {
 func isSortCall(c ssa.CallInstruction) bool {
 	return an.IsCallTo(c, "sort.Slice", "sort.SliceStable", "sort.Sort", "sort.Stable", "sort.Strings", "sort.Ints",
 		"slices.Sort", "slices.SortFunc", "slices.SortStableFunc")
+}
+
+// architecturePackages are the packages of the module the rules are anchored
+// in. A module package that is none of these is a package of shared helpers
+// (code factored out of the command and the library into a place of its own):
+// its functions belong to the helper group of whoever calls them.
+var architecturePackages = map[string]bool{
+	"": true, "patch": true, "internal/engine": true, "internal/data": true, "internal/goast": true,
+	"internal/pgo": true, "internal/pgo/augment": true, "internal/parse": true, "internal/parse/section": true,
+	"internal/astdiff": true, "internal/text": true, "tools": true,
+}
+
+func inSharedHelperPackage(f *ssa.Function) bool {
+	if !an.InModule(f) {
+		return false
+	}
+	rel := strings.TrimPrefix(strings.TrimPrefix(an.FuncPkgPath(f), an.Module), "/")
+	return !architecturePackages[rel]
+}
+
+// actualIn lifts v to f's point of view: while v is a parameter of a helper in
+// f's helper group that the group calls from exactly one site, it is replaced
+// by the argument at that site. (an.Actual does the same for helpers with one
+// call site in the whole program; a helper shared by the command and the
+// library has one per pipeline.)
+func actualIn(f *ssa.Function, v ssa.Value) ssa.Value {
+	for steps := 0; steps < 4; steps++ {
+		v = an.Unwrap(v)
+		p, ok := v.(*ssa.Parameter)
+		if !ok || p.Parent() == f {
+			return v
+		}
+		idx := -1
+		for i, q := range p.Parent().Params {
+			if q == p {
+				idx = i
+			}
+		}
+		var site ssa.CallInstruction
+		n := 0
+		for _, g := range helperGroup(f, 3) {
+			for _, c := range an.Calls(g) {
+				if an.StaticCallee(c) == p.Parent() {
+					site = c
+					n++
+				}
+			}
+		}
+		if n != 1 || idx < 0 || idx >= len(site.Common().Args) {
+			return v
+		}
+		v = site.Common().Args[idx]
+	}
+	return v
 }
